@@ -253,9 +253,11 @@ let hist t a bs parts =
        List.iter (fun o ->
            if !go then begin
              let (sx, _) = parse_sexp (tokenize o) in
-             let (nb, out) = match t with
-               | TFlex (_, _) -> flex_op pv t a (fop_of sx) !cur
-               | _ -> vec_op pv t (vop_of sx) !cur in
+             (* the operation goes to the innermost container reached through the last fields of the value *)
+             let (nb, out) = match tail_container t (clean !cur) with
+               | Some (_, TFlex (_, _)) -> nested_flex_op pv t a (fop_of sx) !cur
+               | Some _ -> nested_vec_op pv t (vop_of sx) !cur
+               | None -> (!cur, OBad) in
              cur := nb;
              Buffer.add_string b (" | res=" ^ oout_s out);
              Buffer.add_string b (hist_obs t a nb);
